@@ -266,8 +266,8 @@ macro_rules
     let ts : Array (Lean.TSyntax `term) := ls.getElems
     `(tactic| first
       | exact ErrIn.of_pure _
-      | (apply ErrIn.of_throw_bind; rfl)
-      | (apply ErrIn.of_throw; rfl)
+      | (apply ErrIn.of_throw_bind; first | rfl | exact Or.inl rfl)
+      | (apply ErrIn.of_throw; first | rfl | exact Or.inl rfl)
       | apply ErrIn.of_throw_bind_side
       | apply ErrIn.of_throw_side
       | (first $[| exact $ts]* | fail)
